@@ -193,6 +193,53 @@ func c03Structured(c *mc.Ctx, th bool) {
 		}
 	}
 	c.Done(fmt.Sprintf("every prefix and every single structural perturbation (type bytes x 256, sizes x 14, ids x 5) of %d valid encodings", len(set)))
+	// containers whose element count needs 16 bits and more: well-formed, every perturbation of the header, sampled cuts
+	for _, n := range []int{32767, 32768, 32769, 65535, 65536} {
+		for shape := 0; shape < 3; shape++ {
+			if !c.Mine() {
+				continue
+			}
+			var v ref.Value
+			switch shape {
+			case 0:
+				v = ref.Value{T: ref.LIST, Elem: ref.BYTE}
+				for i := 0; i < n; i++ {
+					v.L = append(v.L, ref.Value{T: ref.BYTE, I: uint64(i & 0x7f)})
+				}
+			case 1:
+				v = ref.Value{T: ref.SET, Elem: ref.BOOL}
+				for i := 0; i < n; i++ {
+					v.L = append(v.L, ref.Value{T: ref.BOOL, I: uint64(i & 1)})
+				}
+			default:
+				v = ref.Value{T: ref.MAP, Key: ref.BYTE, Elem: ref.BOOL}
+				for i := 0; i < n; i++ {
+					v.L = append(v.L, ref.Value{T: ref.BYTE, I: uint64(i & 0x7f)}, ref.Value{T: ref.BOOL, I: 1})
+				}
+			}
+			st := ref.Value{T: ref.STRUCT, F: []ref.Field{{ID: 9, V: v}, {ID: 10, V: gen.Small(ref.I32, 1)}}}
+			enc, ms := gen.Marks(&st)
+			name := fmt.Sprintf("struct{9: %d-element container (shape %d), 10: i32}", n, shape)
+			for cut := 0; cut <= len(enc); cut++ {
+				if cut > 24 && cut < len(enc)-24 && cut%4093 != 0 {
+					continue
+				}
+				call("struct", enc[:cut], ref.STRUCT, "prefix of "+name)
+				call("fields", enc[:cut], ref.STRUCT, "prefix of "+name)
+			}
+			var head []gen.Mark
+			for _, m := range ms {
+				if m.Off < 16 || m.Off > len(enc)-16 {
+					head = append(head, m)
+				}
+			}
+			gen.Perturb(enc, head, true, func(b []byte, desc string) bool {
+				call("struct", b, ref.STRUCT, name+" with "+desc)
+				return true
+			})
+		}
+	}
+	c.Done("well-formed containers of 32767..65536 elements inside a struct: sampled prefixes, every perturbation of the header bytes")
 	// splices: prefix of A up to a structural position + suffix of B from a structural position
 	lim := 40
 	if th {
